@@ -102,6 +102,19 @@ Definition init_ok (f : filt) : bool :=
 Lemma init_all : forallb init_ok all_filters = true.
 Proof. vm_compute. reflexivity. Qed.
 
+(* configuration pairs that must stay consistent: when __init__ derives `Dt` from `frequency` (and lets a keyword override it), the
+   effective step is `Dt`; a per-sample entry point that reads the base attribute `frequency` would ignore an explicit Dt= *)
+Definition config_pairs : list (string * string) := [("Dt", "frequency")].
+Definition derived_from (f : filt) (y x : string) : bool :=
+  existsb (fun d => (if string_dec (fst d) y then true else false) &&
+                    existsb (fun s => match s with SAttr a => if string_dec a x then true else false | _ => false end) (snd d)) (finit f).
+Definition pairs_ok (f : filt) (u : string) : bool :=
+  let R := rd_names (foot (fmethods f) FUEL (Call u)) in
+  forallb (fun p => negb (derived_from f (fst p) (snd p)) || negb (mem (snd p) R)) config_pairs.
+Lemma pairs_all : forallb (fun fu => pairs_ok (fst fu) (snd fu))
+  ((F_Madgwick, "updateIMU") :: (F_Madgwick, "updateMARG") :: framed_entry_points) = true.
+Proof. vm_compute. reflexivity. Qed.
+
 (* a concrete machine: the batch loop really runs and returns the streamed rows *)
 Example batch_runs :
   fst (batch 0 0 (fun (h q x : nat) => (q + x + h, S h)) 5 100 [7; 1; 2; 3]) = [100; 106; 114; 124].
